@@ -10,7 +10,9 @@ KINDS = {
     'C07': {'c07-lost', 'c07-foreign', 'recover-failed', 'recover-panic', 'read-error', 'panic'},
     'C08': {'c08-partial-batch'},
     'C09': {'c09-redelivery', 'c09-skip'},
+    'C10': {'c07-lost', 'c07-foreign', 'recover-failed', 'recover-panic', 'read-error', 'panic', 'c09-redelivery', 'c09-skip'},
 }
+POWER = {'C10'}
 # per property: (tiny, medium, thorough). tiny = payloads <= 4 KiB (one block, no rotation): broad set of histories, every
 # crash point; medium = payloads <= 32 MiB (rotation, multi-unit blocks) on short histories; thorough adds longer ones.
 # 'pre|post': operations after the bar run after the crash recovery (appends, clean restarts) before the drain;
@@ -25,6 +27,10 @@ SKELS = {
     'C09': (['a,n', 'a,a,n,n', 'a,a,b', 'a,n,a,n', 'a,n,n', 'a,n,a|a,X', 'a,a,n,a|a/b', 'a,a,n,a|a,X/b', 'a,b,a,b', 'a,a,n,X,a,n'],
             ['a,n', 'a,a,n'],
             ['a,a,a,n,b', 'A3,n,n', 'a,a,n,a,b,n', 'a,a,n,n', 'a,a,b']),
+    # power loss under SyncEach: appends (single, batch, with rotation in the medium group) and consuming reads
+    'C10': (['a', 'a,a', 'a,n', 'a,n,n', 'a,a,n,a', 'A2,n', 'a,b,a', 'a,n,X,a,n', 'a,n,a|a,X'],
+            ['a,a', 'a,n'],
+            ['a,a,a', 'A3', 'a,a,n,n,a', 'a,A2,b']),
 }
 
 
@@ -44,6 +50,15 @@ def build_script(r, backend, consistency, pe):
     ops[idx]['abort_at_event'] = cev + 1
     ops[idx]['expected_event_kind'] = ckind
     ops.append(dict(op='restart_process'))
+    if r.get('power_loss') is not None:
+        ds = []
+        for d in r['power_loss']:
+            d = dict(d)
+            for k in ('off', 'len'):
+                if isinstance(d.get(k), str):
+                    d[k] = wit[d[k]]
+            ds.append(d)
+        ops.append(dict(op='power_loss', directives=ds))
     ops.append(dict(op='open'))
     for o in r.get('post') or []:
         o = json.loads(json.dumps(o))
@@ -59,13 +74,16 @@ def build_script(r, backend, consistency, pe):
                 ops.append(dict(op='batch_read', topic=t, checkpoint=True, budget=2 ** 64 - 1, drain=True))
             else:
                 ops.append(dict(op='read_next', topic=t, checkpoint=True, drain=True))
-    return dict(config=dict(backend=backend, consistency=consistency, persist_every=pe), ops=ops)
+    cfgd = dict(backend=backend, consistency=consistency, persist_every=pe)
+    if r['job'].get('power'):
+        cfgd.update(fsync='SyncEach', snapshots=True)
+    return dict(config=cfgd, ops=ops)
 
 
 def judge(script, obs, kinds):
     """reference oracle for crash histories on native observations"""
     by_i = {o['i']: o for o in obs}
-    acked, delivered, drained = {}, {}, {}
+    acked, delivered, drained, n_post = {}, {}, {}, {}
     inflight = None
     consistency = script['config'].get('consistency', 'StrictlyAtOnce')
     crashed = False
@@ -83,10 +101,14 @@ def judge(script, obs, kinds):
             continue
         if o.get('panic') is not None or o.get('crash'):
             return [('recover-panic' if crashed else 'panic', i, 'op %s: %s' % (op['op'], {k: o[k] for k in o if k in ('panic', 'crash', 'stderr')}))]
+        if op['op'] == 'power_loss' and 'err' in o:
+            return [('materialise-failed', i, str(o))]
         if op['op'] in ('open',) and 'err' in o:
             return [('recover-failed', i, str(o))]
         if op['op'] in ('append', 'batch_append') and o.get('ok'):
             acked.setdefault(t, []).extend(e['uid'] for e in op['entries'])
+            if crashed:
+                n_post[t] = n_post.get(t, 0) + len(op['entries'])
         elif op['op'] in ('read_next', 'batch_read') and 'entries' in o:
             if op.get('drain'):
                 drained.setdefault(t, []).extend(e.get('uid', ('empty' if e.get('len') == 0 else None)) for e in o['entries'])
@@ -117,10 +139,14 @@ def judge(script, obs, kinds):
         lo = d if consistency == 'StrictlyAtOnce' else 0
         hi = d if rin is None else (d + 1 if rin == 'n' else len(ack))
         ok = None
+        npre = len(ack) - n_post.get(t, 0)
+        pre, postack = ack[:npre], ack[npre:]
         for start in range(lo, hi + 1):
-            rest = ack[start:]
-            if ids[:len(rest)] == rest and ids[len(rest):] == infl[:len(ids) - len(rest)]:
-                ok = (start, len(ids) - len(rest))
+            for k in range(len(infl) + 1):
+                if ids == pre[start:] + infl[:k] + postack:
+                    ok = (start, k)
+                    break
+            if ok:
                 break
         if ok is None:
             if consistency == 'StrictlyAtOnce' and ids and ids[0] in ack and ack.index(ids[0]) < d:
@@ -143,10 +169,12 @@ def finding_matches(f, r, script):
     return enginecheck.finding_matches(f, r, script)
 
 
-def check_traces(rep, docs, seed):
+def check_traces(rep, docs, seed, power=False):
     """the model's I/O events per operation must equal the events the hooks record natively"""
     for backend in ('fd', 'mmap'):
         job = dict(skel='a,A2,n,a,b', backend=backend, concrete=dict(sizes=[100, 5 * 2 ** 20, 6 * 2 ** 20, 50], budgets=[10 ** 9]), trace_only=True)
+        if power:
+            job['power'] = True
         agg = runner.explore_jobs('rsym.drivers.crash', 'mk', docs, [job], dict(seed=seed, eager_div=6), 1, 120)
         rep.absorb(agg)
         rs = [r for r in agg['results'] if r['verdict'] == 'trace']
@@ -155,7 +183,7 @@ def check_traces(rep, docs, seed):
             return
         wit = {'size%d' % i: v for i, v in enumerate(job['concrete']['sizes'])}
         wit['budget0'] = job['concrete']['budgets'][0]
-        script = enginecheck.concretise(rs[0]['ops'], wit, dict(backend=backend, consistency='StrictlyAtOnce'))
+        script = enginecheck.concretise(rs[0]['ops'], wit, dict(backend=backend, consistency='StrictlyAtOnce', **(dict(fsync='SyncEach') if power else {})))
         obs, e = replay.run_script(script, cfg_flags=HOOKS)
         rep.replays_run += 1
         if e:
@@ -177,6 +205,10 @@ def run(prop, tier, seed):
     rep.bounds = dict(histories='skeletons tiny=%s medium=%s more=%s (the first group with payloads 0 .. 4 KiB, the others 0 .. 32 MiB; sizes symbolic); one crash per history, placed right before any I/O event (data write, flush, file creation steps, index persist steps, io_uring submission) incl. the events of the initial open' % (tiny, medium, more if tier == 'thorough' else []),
                       crash_model='process crash: completed events persist, the interrupted one and everything after it do not happen; an io_uring batch submission is one event on the FD path (kernel-side partial completion is outside the claim), the sequential path has one event per entry',
                       after_crash='fresh process, real recovery, every topic drained with read_next')
+    if prop in POWER:
+        rep.bounds['crash_model'] = ('power loss right before any I/O event under FsyncSchedule::SyncEach: a data write survives if its file was synced (sync_all / msync) after it or the handle is O_SYNC; '
+                                     'a file creation or rename survives if its directory was synced after it; every other write / creation is kept or dropped independently (solver-visible decisions); of the renames of the '
+                                     'read-offset index only the last surviving one matters (decision: which); clean-marker renames and deletions by the reclaimer are treated as durable (outside the claim)')
     rep.assumptions = list(envmodel.ASSUMPTIONS) + ['I/O events of background threads (fsync worker, marker persister) are not crash points; the native hook counts events of the calling thread only']
     binp, err = replay.build(HOOKS)
     if not binp:
@@ -184,7 +216,7 @@ def run(prop, tier, seed):
         return rep.finish()
     docs = runner.parse_sources(engine.CORE_FILES)
     rng = random.Random(seed)
-    check_traces(rep, docs, seed)
+    check_traces(rep, docs, seed, power=prop in POWER)
     if rep.inconclusive:
         return rep.finish()
     if prop == 'C09':
@@ -203,6 +235,8 @@ def run(prop, tier, seed):
         s, _, dr = s.partition('/')
         pre, _, post = s.partition('|')
         j = dict(skel=pre, backend=b, consistency='StrictlyAtOnce', **kw)
+        if prop in POWER:
+            j['power'] = True
         if post:
             j['post'] = post
         if dr == 'b':
@@ -245,6 +279,12 @@ def run(prop, tier, seed):
             rep.inconclusive.append(e)
             break
         v = judge(script, obs, kinds)
+        if v and v[0][0] == 'no-crash':
+            rep.inconclusive.append('MODEL-MISMATCH: the crash point of a counterexample is not reached natively: %s %s crash %s witness %s' % (r['kind'], r['job'], r['crash'], r['witness']))
+            continue
+        if v and v[0][0] == 'materialise-failed':
+            rep.inconclusive.append('power-loss state could not be materialised natively: %s' % (v[0][2],))
+            continue
         if not v:
             rep.inconclusive.append('MODEL-MISMATCH: crash counterexample does not reproduce natively: %s %s crash %s witness %s' % (r['kind'], r['job'], r['crash'], r['witness']))
             continue
